@@ -174,3 +174,54 @@ pub fn dec_slot<D: Dec, const K: usize, const R: usize>(sb: usize, q: usize, om:
         i += 1;
     }
 }
+
+/// (i') insert / undo over a RANGE of shards (third-round seed `C04c`: an unrolled undo loop
+/// that is only wrong from the 4th shard of the range on). `FanEngine::fft` copies the first
+/// shard of the transformed range onto the others and does nothing else, so with one
+/// original every recovery shard must come back as exactly the original shard, whatever
+/// its index: undo_last_chunk_encoding must treat every shard of its range alike.
+#[derive(Clone, Copy)]
+pub struct FanEngine;
+impl reed_solomon_simd::engine::Engine for FanEngine {
+    fn fft(&self, d: &mut reed_solomon_simd::engine::ShardsRefMut, pos: usize, size: usize, _t: usize, _k: usize) {
+        let nb = d[pos].len();
+        let mut i = 1;
+        while i < size {
+            let mut b = 0;
+            while b < nb {
+                let t = d[pos][b];
+                d[pos + i][b] = t;
+                b += 1;
+            }
+            i += 1;
+        }
+    }
+    fn ifft(&self, _d: &mut reed_solomon_simd::engine::ShardsRefMut, _p: usize, _s: usize, _t: usize, _k: usize) {}
+    fn mul(&self, _x: &mut [[u8; 64]], _m: u16) {}
+    fn eval_poly(_e: &mut [u16; 65536], _t: usize) {}
+}
+impl MkEngine for FanEngine {
+    fn mk_engine() -> Self {
+        FanEngine
+    }
+}
+
+pub fn layout_enc_range<E: Enc>(r: usize, sb: usize) {
+    let shard = sym_shard(sb);
+    let mut e = E::mk(1, r, sb).unwrap();
+    e.add(&shard).unwrap();
+    let q: usize = k::any();
+    k::assume(q < sb / 2);
+    let (lo, hi, _, _) = placement(sb, q);
+    let out = e.enc();
+    let res = out.unwrap();
+    let mut j = 0;
+    while j < r {
+        let rec = res.recovery(j).unwrap();
+        assert!(rec.len() == sb, "recovery shard has the wrong size");
+        assert!(rec[lo] == shard[lo] && rec[hi] == shard[hi], "undo_last_chunk_encoding does not invert insert for every shard of its range");
+        j += 1;
+    }
+    assert!(res.recovery(r).is_none());
+    kcover!(q == sb / 2 - 1);
+}
